@@ -28,6 +28,7 @@ void io_shim_root(const char *dir);               /* journal + faults apply to p
 void io_shim_journal(const char *path);           /* start journalling to file (NULL = stop) */
 void io_shim_mark(const char *text);              /* driver annotation line in the journal */
 void io_shim_fail(long k, int persistent, int err, int classmask); /* arm: k-th eligible call fails */
+void io_shim_fail_only_manifest(int on);                            /* restrict injected faults to MANIFEST descriptors */
 void io_shim_clear(void);
 long io_shim_count(void);                         /* eligible calls seen since last arm/clear */
 long io_shim_fired(void);                         /* number of injected failures so far */
